@@ -486,6 +486,39 @@ func main() {
 			}
 		}
 	}
+	// Scanner.Close: after Close, Scan is false for good and Err is osm.ErrScannerClosed; the
+	// objects yielded before are a prefix of the document's objects
+	nclose := 0
+	for _, d := range docs {
+		if d.known != "" || d.serr != nil || len(d.scanned) < 2 || nclose >= 12 {
+			continue
+		}
+		nclose++
+		k := rng.Intn(len(d.scanned))
+		sc := osmxml.New(context.Background(), bytes.NewReader(d.text))
+		var got []osm.Object
+		for i := 0; i < k && sc.Scan(); i++ {
+			got = append(got, sc.Object())
+		}
+		sc.Close()
+		after := sc.Scan()
+		again := sc.Scan()
+		errClosed := sc.Err() == osm.ErrScannerClosed
+		c := &wire.Case{Class: "close"}
+		c.Str("CLOSE")
+		d.tree.Emit(c)
+		c.Int(int64(k)).Len(len(got))
+		for _, o := range got {
+			c.Str(kindOf(reflect.ValueOf(o)))
+			xcodec.Emit(c, reflect.ValueOf(o).Elem(), nil)
+		}
+		c.Bool(after || again).Bool(errClosed)
+		c.Desc = map[string]interface{}{"document": string(d.text), "close_after": k, "yielded": len(got), "scan_after_close": after || again, "err_is_ErrScannerClosed": errClosed}
+		if after || again || !errClosed || len(got) != k {
+			c.OracleFail = "Scan after Close returned true, or Err is not ErrScannerClosed, or fewer objects before Close than asked"
+		}
+		w.Add(c)
+	}
 	for _, k := range []int{canValue, canScan, canTree} {
 		w.Add(build(docs[0], k))
 	}
